@@ -5,7 +5,7 @@
    False outside dom (the *_refuted witnesses = known findings); proved on dom = histories of CREATE [OR REPLACE]
    TABLE, DROP TABLE, DROP SCHEMA, ADD / DROP / RENAME COLUMN, RENAME TO (after fix 6836b10) and comments on existing
    tables - including any re-use of table and column names. Outside dom: CLONE / CTAS and comments on missing tables. *)
-From FS Require Import Sexp Meta MetaProofs.
+From FS Require Import Sexp Types TypesProofs Meta MetaProofs.
 
 Theorem metadata_exact_partial : forall h, dom h = true -> forall k, length k = 3%nat ->
   comment_fake (run h) k = comment_spec (run h) k /\
@@ -64,3 +64,24 @@ Print Assumptions meta_holds_somewhere.
 Example meta_tx_holds_somewhere : tdom ex_th = true /\ cur (trun ex_th) = run ex_h.
 Proof. exact meta_tx_nonvacuous_l. Qed.
 Print Assumptions meta_tx_holds_somewhere.
+
+(* "with Snowflake type names, precision and scale ... agree with each other": for every DuckDB column type a Snowflake
+   statement can produce, the name / precision / scale that information_schema.columns and DESCRIBE TABLE compute (the CASE arms
+   of the view _fs_columns_snowflake, tied to info_schema.py by the generated theorem view_arms_match_source) are those of
+   cursor.description (Types.sf_meta, tied to types.py by table_matches_source) *)
+Theorem info_name_agrees_partial : forall t m, sf_meta t = Some m -> column_dom t = true -> info_name t = Some (sf_name (kind m)).
+Proof. exact info_name_agrees_partial_l. Qed.
+Print Assumptions info_name_agrees_partial.
+
+Theorem info_precision_agrees_partial : forall t m, sf_meta t = Some m -> column_dom t = true -> kind m = Fixed ->
+  info_prec t = precision m /\ info_scale t = scale m.
+Proof. exact info_precision_agrees_partial_l. Qed.
+Print Assumptions info_precision_agrees_partial.
+
+Theorem info_float_has_no_precision : info_prec DDouble = None /\ info_scale DDouble = None.
+Proof. exact info_float_has_no_precision_l. Qed.
+Print Assumptions info_float_has_no_precision.
+
+Theorem info_timestamp_ns_refuted : exists t m, sf_meta t = Some m /\ info_name t <> Some (sf_name (kind m)).
+Proof. exact info_timestamp_ns_refuted_l. Qed.
+Print Assumptions info_timestamp_ns_refuted.
